@@ -314,3 +314,17 @@ PLAN["C12"]["units"] = PLAN["C12"]["units"] + [HP + "stream_send"]
 PLAN["C12"]["trusted_base"] = PLAN["C12"]["trusted_base"] + LIB_H2
 # C15 "H2 ... sends GOAWAY once idle after termination", "idle timer fires immediately on terminated"
 PLAN["C15"]["units"] = PLAN["C15"]["units"] + [HP + "stream_send", ATS + "_initiate_server_close", TTS + "_initiate_server_close"]
+# the watcher both workers start on the trigger and on the worker's own terminate event
+PLAN["C15"]["units"] = PLAN["C15"]["units"] + [UT + "raise_shutdown"]
+PLAN["C18"]["units"] = PLAN["C18"]["units"] + [UT + "raise_shutdown"]
+# C04 "the connection handler terminates or keeps serving without an unhandled exception": the
+# connection handler is TCPServer.run and what it calls, on both workers
+PLAN["C04"]["units"] = PLAN["C04"]["units"] + SERVER_UNITS
+PLAN["C04"]["trusted_base"] = PLAN["C04"]["trusted_base"] + LIB_IO
+# C01 "for every way the request bytes are split across network reads": the stream that is attached
+# while a request is being read is the one its body events go to (C06.serial across _maybe_recycle)
+PLAN["C01"]["units"] = PLAN["C01"]["units"] + [H1P + "_maybe_recycle"]
+PLAN["C01"]["trusted_base"] = PLAN["C01"]["trusted_base"] + LIB_H11
+# C05 "the connection's other streams ... keep working": data that arrives for a stream whose
+# application has failed is still acknowledged, or the connection's receive window runs dry
+PLAN["C05"]["units"] = PLAN["C05"]["units"] + [HP + "_handle_events"]
